@@ -16,6 +16,16 @@ Oracles
              transmission of a request or of the response of a protocol step, at most one per step, every recovery
              frame delivered, roomy time-outs  =>  every exchange succeeds                 sig recovery/..
   hang       frame bound of the air exceeded (logical non-progress)                        sig hang/..
+  report     None from Target.exchange()/send_timeout_extension() only after a delivered RLS_REQ/DSL_REQ was heard
+             (a 0-byte frame of the garbled family is what a driver's "link broke" looks like: counted)   sig report/..
+  retry      retry-after-failure class (the initiator application calls exchange(next) again after a
+             CommunicationError): delivery only - in order, intact, at most once, a success report implies the
+             delivery of *that* payload (a response to an earlier request is "stale-response")   sig retry/..
+Input classes beside the fault scripts: termination by RLS_REQ, DSL_REQ (deactivate(release=False)) or by the target
+application calling Target.deactivate(data) (delivery verdicts only); target think-time x*RWT (x<1) and y*rtox*RWT
+(y<1) after a granted RTOX on an air that honours the receiver's deadline (a frame that starts after it is not heard):
+fault-free and single-fault runs must still succeed, so RWT derivation and the RTOX multiplier are observable; tight
+time-outs with host latency / long think-time (delivery only); the empty payload (probe).
 Outside the statement's quantifier but recorded with their own signature family (asked for by the task):
   garbled/.. a frame truncated to 0..4 bytes that passes the receiver's CRC (belongs to C07)
   stale/..   a response replaced by the previous different response (replay): judged by the delivery oracle only.
@@ -40,22 +50,46 @@ RULE = ("a case = (configuration, payload sizes, fault script actually applied);
         "frames after activation (quick k=2 L=12, thorough k=3 L=24; enumerated depth-first over the frames that "
         "really occur, so each script is distinct), then random scripts with 5-40 % faults (one in five of them also "
         "with replayed responses or frames cut to 0-4 bytes: signature families stale/ and garbled/, no recovery "
-        "verdict), a fifth of the random ones with tight time-outs (delivery verdict only); non-trivial = the "
-        "conversation got through activation and at least one DEP frame was exchanged")
+        "verdict), a fifth of the random ones with tight time-outs, host latency and think-time beyond RWT (delivery "
+        "verdict only); every conversation ends by RLS_REQ, DSL_REQ or Target.deactivate(data) (families + random), "
+        "target think-time 0-0.97 RWT and 0-0.97 rtox*RWT in the recovery domain; quick tier also: wrap9/long-chain "
+        "exhaustive with k=1 over 40 frames, a tdeact family (k=2), outages of 3-6 consecutive frames at every start "
+        "position followed by further exchange() calls (retry class), one empty-payload probe per shard; non-trivial "
+        "= the conversation got through activation and at least one DEP frame was exchanged")
 ASSUMPTIONS = [
     "vf.sim.air models the driver level: half-duplex, a lost frame is silence until the receiver's deadline, a "
     "corrupted frame is nfc.clf.TransmissionError at the receiver, the listening driver drops corrupted frames",
     "the target application answers every delivered payload with its next payload; both applications stop at the "
     "first failure; Initiator.deactivate() (RLS_REQ) ends every conversation",
-    "None from Target.exchange()/send_timeout_extension() is accepted as a failure report at any time (the statement "
-    "allows it 'after release'); in the recovery domain the target must end with None or TimeoutError",
+    "None from Target.exchange()/send_timeout_extension() is accepted only after a RLS_REQ/DSL_REQ was delivered to "
+    "the target (statement: 'after release'); nfc.dep/nfc.clf document no None-on-time-out, so None at an expired "
+    "deadline is reported (report/tgt/none-without-release/..); in the recovery domain the target must end with None "
+    "or TimeoutError",
+    "Target.deactivate(data) answers every further request with data for up to 1 s (what LLCP relies on): requests the "
+    "initiator application sends after the target application called deactivate() are answered, not delivered; they "
+    "are counted (ini_success_answered_by_deactivating_target), not judged, and must return exactly that data; the "
+    "data fits one frame; no recovery verdict in this class",
+    "the air honours the receiver's deadline: a frame whose transmission starts after it is unheard; think-time is "
+    "spent by the target application between two exchange() calls and is below RWT (below rtox x RWT after "
+    "send_timeout_extension(rtox)) whenever the recovery clause is judged",
+    "an empty payload may be delivered, fail with a CommunicationError or be refused with ValueError before anything is "
+    "sent (Target.exchange documents that refusal); any other exception is reported",
     "roomy time-outs: initiator 8 x RWT (x RTOX factor) + 0.2 s per frame, target far beyond; RTOX is only used with "
     "rtox x RWT <= 0.2 s because Target.send_timeout_extension() has a fixed 1 s deadline",
-    "DID 0 and empty payloads are outside the domain; faults are not injected into ATR/PSL frames (activation is C19)",
+    "DID 0 is outside the domain; faults are not injected into ATR/PSL frames (activation is C19)",
 ]
 REQUIRED = ["scripts_run", "exhaustive_scripts", "exhaustive_configs_completed", "frames_INF", "frames_ACK",
             "frames_NAK", "frames_ATN", "frames_RTOX", "recovery_clause_checked", "recoveries_retransmission",
-            "pni_wraps", "payloads_delivered", "wire_frames_checked", "chained_exchanges"]
+            "pni_wraps", "payloads_delivered", "wire_frames_checked", "chained_exchanges",
+            # strengthened monitors / input classes (a dead one makes the run INCONCLUSIVE)
+            "wire_lr_checked", "wire_lr_checked_dep_toT", "wire_lr_checked_dep_toI", "recovery_clause_checked_with_faults",
+            "scripts_random", "frames_INF_chained", "end_tgt_none_after_release", "end_op_dsl", "end_op_tdeact",
+            "frames_DSL", "recovery_clause_checked_end_dsl", "tdeact_farewell_delivered", "retry_runs",
+            "retry_calls_after_failure", "recovery_clause_checked_with_think_time",
+            "recovery_clause_checked_with_rtox_think_time", "frames_late_unheard", "empty_payload_probes",
+            "exhaustive_fam_wrap9", "exhaustive_fam_long-chain", "exhaustive_fam_tdeact", "burst_configs_completed",
+            "size_I_1", "size_I_miu-1", "size_I_miu", "size_I_miu+1", "size_I_n*miu+0", "size_I_multi",
+            "size_T_1", "size_T_miu-1", "size_T_miu", "size_T_miu+1", "size_T_n*miu+0", "size_T_multi"]
 
 BRTY = ("106A", "212F", "424F")
 COMM = nfc.clf.CommunicationError
@@ -97,6 +131,16 @@ class Outcome(object):
         self.abort = None
         self.i_calls = 0
         self.t_calls = 0
+        self.i_ok_idx = []            # index k of every Initiator.exchange(sent_i[k]) that returned
+        self.i_ok_at = []             # frames on the air when that call returned
+        self.i_fails = []             # (k, exception name, frames on the air) of every failed Initiator.exchange
+        self.retried = False          # the initiator application called exchange() again after a failure
+        self.t_none = None            # how Target.exchange()/send_timeout_extension() came to return None
+        self.t_deact_at = None        # frames on the air when the target application called Target.deactivate(data)
+        self.farewell = None          # the data handed to Target.deactivate()
+        self.i_refused_empty = 0
+        self.i_refused_idx = []       # payloads refused with ValueError before anything was sent: never on their way
+        self.i_escape_empty = False   # the escaping exception was raised for an empty payload
 
 
 def converse(cfg, script):
@@ -119,8 +163,19 @@ def converse(cfg, script):
             "given-212F": "passive-F", "given-424F": "passive-F"}[start]
     fault_free_frames = 2 * n + 8 + sum((s // 40) * 2 for s in cfg["sizes_i"]) + \
         sum((cfg["sizes_t"][k % len(cfg["sizes_t"])] // 40) * 2 for k in range(n))
-    air = A.Air(mode=mode, max_frames=300 + 30 * fault_free_frames, stall_s=float(cfg.get("stall_s", 30)))
+    rxlat = float(cfg.get("rxlat") or 0) * rwt
+    air = A.Air(mode=mode, max_frames=300 + 30 * fault_free_frames, stall_s=float(cfg.get("stall_s", 30)),
+                honour_deadline=bool(cfg.get("honour")))
     vclock.patch([nfc.dep, nfc.clf], air.clock)
+    think = [float(x) for x in (cfg.get("think") or [])]        # target application think-time, fractions of RWT
+    think_rtox = float(cfg.get("think_rtox") or 0)             # ... of rtox x RWT after a granted extension
+    end = cfg.get("end", "rls")
+    tdeact = cfg.get("tdeact") if end == "tdeact" else None
+    if tdeact is not None:
+        # the farewell handed to Target.deactivate() travels in one frame (LLCP hands over 2 bytes)
+        j = int(tdeact) - 1
+        out.sent_t[j] = payload(cfg["pseed"], "T", j, max(1, min(len(out.sent_t[j]), spec_miu(cfg, "T"))))
+    retries = [int(cfg.get("retry") or 0)]
     if cfg.get("frontend"):
         iclf, tclf = A.frontend(air.initiator_device()), A.frontend(air.target_device())
     else:
@@ -138,20 +193,38 @@ def converse(cfg, script):
         if gb is None:
             out.t_end = "noact"
             return
+        def none(call, t0, deadline):
+            out.t_end = "none"
+            out.t_none = {"call": call, "expired": air.clock.now >= deadline, "last": air.T.last,
+                          "frames": len(air.log)}
+
         try:
             out.t_calls += 1
+            t0 = air.clock.now
             d = tgt.exchange(None, tmo_t)
             k = 0
             while True:
                 if d is None:
-                    out.t_end = "none"
+                    none("exchange", t0, t0 + tmo_t)
                     break
                 out.got_t.append(bytes(d))
+                if think:
+                    air.think(air.T, think[k % len(think)] * rwt)
+                if tdeact is not None and len(out.got_t) == tdeact:
+                    out.t_deact_at = len(air.log)
+                    out.farewell = out.sent_t[k]
+                    tgt.deactivate(bytearray(out.sent_t[k]))
+                    out.t_end = "deactivated"
+                    break
                 if k in rtox:
+                    t0 = air.clock.now
                     if tgt.send_timeout_extension(rtox[k]) is None:
-                        out.t_end = "none"
+                        none("rtox", t0, t0 + 1.0)
                         break
+                    if think_rtox:
+                        air.think(air.T, think_rtox * rtox[k] * rwt)
                 out.t_calls += 1
+                t0 = air.clock.now
                 d = tgt.exchange(out.sent_t[k] if k < len(out.sent_t) else b"\xEE", tmo_t)
                 k += 1
         except COMM as e:
@@ -191,20 +264,52 @@ def converse(cfg, script):
             return
         air.arm(script)
         out.base = air.script_base
-        try:
-            for k in range(n):
-                out.i_calls += 1
-                out.got_i.append(bytes(ini.exchange(out.sent_i[k], tmo_i)))
+        air.rx_latency = rxlat or None          # host latency only after activation (activation is C19)
+        k = 0
+        while k < n:
+            out.i_calls += 1
+            frames0 = len(air.log)
+            try:
+                r = ini.exchange(out.sent_i[k], tmo_i)
+            except COMM as e:
+                out.i_fails.append((k, type(e).__name__, len(air.log)))
+                if out.i_exc is None:
+                    out.i_end, out.i_exc, out.i_fail_at = type(e).__name__, e, len(air.log)
+                if retries[0] <= 0 or k + 1 >= n:
+                    break
+                # retry-after-failure class: the application goes on with its next payload
+                retries[0] -= 1
+                out.retried = True
+                k += 1
+                continue
+            except A.AirAbort:
+                raise
+            except ValueError as e:
+                if len(out.sent_i[k]) == 0 and len(air.log) == frames0:
+                    # argument refused before anything was sent (what Target.exchange does with an empty payload)
+                    out.i_refused_empty += 1
+                    out.i_refused_idx.append(k)
+                    k += 1
+                    continue
+                out.i_end, out.i_escape, out.i_fail_at = "escape", e, len(air.log)
+                break
+            except Exception as e:
+                out.i_end, out.i_escape, out.i_fail_at = "escape", e, len(air.log)
+                out.i_escape_empty = len(out.sent_i[k]) == 0
+                break
+            out.got_i.append(bytes(r))
+            out.i_ok_idx.append(k)
+            out.i_ok_at.append(len(air.log))
+            k += 1
+        if out.i_end is None:
             out.i_end = "ok"
-        except COMM as e:
-            out.i_end, out.i_exc = type(e).__name__, e
-        except A.AirAbort:
-            raise
-        except Exception as e:
-            out.i_end, out.i_escape = "escape", e
-        out.i_fail_at = len(air.log)
+        if out.i_fail_at is None:
+            out.i_fail_at = len(air.log)
         try:
-            ini.deactivate()
+            if end == "leave":
+                pass
+            else:
+                ini.deactivate(release=(end != "dsl"))
         except A.AirAbort:
             raise
         except Exception as e:
@@ -311,7 +416,7 @@ def judge(cfg, out, R, case, evidence=True):
 
     def viol(sig, what):
         # runs with faults outside the statement's quantifier get their own signature family
-        if sig.split("/")[0] in ("delivery", "escape", "hang"):
+        if sig.split("/")[0] in ("delivery", "escape", "hang", "retry", "report"):
             if out.garbled:
                 sig = "garbled/" + sig
             elif stale:
@@ -341,35 +446,132 @@ def judge(cfg, out, R, case, evidence=True):
         return sigs
 
     # ---- delivery (application history) -------------------------------------------------------
+    # strict form (prefix, item by item) whenever no exchange() was called after a failure; in the retry-after-failure
+    # class the payloads of failed calls may be missing: in order, intact, at most once (subsequence)
+    fam = "retry/" if out.retried else ""
+    farewell_from = None
+    got_i = out.got_i
+    if out.farewell is not None and cfg["n"] > int(cfg["tdeact"]):
+        # the initiator application went on after the target application had called Target.deactivate(data): the first
+        # exchange completed after that call is answered with the data (judged like every response), further requests
+        # are answered with the same data again (see ASSUMPTIONS); judged: nothing but that data comes back
+        after = [j for j, at in enumerate(out.i_ok_at) if at > out.t_deact_at]
+        farewell_from = after[1] if len(after) > 1 else None
+        if farewell_from is not None:
+            extra = got_i[farewell_from:]
+            got_i = got_i[:farewell_from]
+            if evidence:
+                R.count("ini_success_answered_by_deactivating_target", len(extra))
+            if any(g != out.farewell for g in extra):
+                viol("delivery/ini/foreign-after-target-deactivate",
+                     "after Target.deactivate(data) the initiator application received something else than that data (%s)" % ctx)
     mismatch = False
-    for side, got, sent, d in (("tgt", out.got_t, out.sent_i, "I"), ("ini", out.got_i, out.sent_t, "T")):
+    sent_i = [p_ for k, p_ in enumerate(out.sent_i) if k not in out.i_refused_idx]
+    for side, got, sent, d in (("tgt", out.got_t, sent_i, "I"), ("ini", got_i, out.sent_t, "T")):
+        ptr = 0
         for idx, g in enumerate(got):
-            if idx >= len(sent) or g != sent[idx]:
-                c = classify(g, idx, sent, d)
+            if not out.retried:
+                hit = idx if idx < len(sent) and g == sent[idx] else None
+            else:
+                hit = next((j for j in range(ptr, len(sent)) if sent[j] == g), None)
+            if hit is None:
+                c = classify(g, ptr if out.retried else idx, sent, d)
                 if any(fr.p.sub == "RTOX" and fr.p.ok and bytes(fr.p.data) == g for fr in out.log[out.base:]):
                     c = "rtox-pdu-data"
-                viol("delivery/%s/%s" % (side, c),
+                viol("%sdelivery/%s/%s" % (fam, side, c),
                      "%s application received a %s payload at position %d (%d bytes, expected %s) (%s)"
                      % (side, c, idx, len(g), len(sent[idx]) if idx < len(sent) else None, ctx))
                 mismatch = True
                 break
+            ptr = hit + 1
     if mismatch:
         pass            # the counts below would only repeat the finding
-    elif len(out.got_t) < len(out.got_i):
+    elif out.retried:
+        # success report implies delivery, call by call
+        for pos, k in enumerate(out.i_ok_idx):
+            if out.t_deact_at is not None and out.i_ok_at[pos] > out.t_deact_at:
+                break           # answered by the deactivating target (its application no longer calls exchange())
+            if out.sent_i[k] not in out.got_t:
+                j = out.sent_t.index(out.got_i[pos]) if out.got_i[pos] in out.sent_t else None
+                mech = "stale-response" if j is not None and j < len(out.got_t) and out.got_t[j] != out.sent_i[k] else "other"
+                viol("retry/ini/success-without-delivery/" + mech,
+                     "after a failed exchange the next Initiator.exchange() reported success (it returned the response "
+                     "to an earlier request) but its payload never reached the target application (%s)" % ctx)
+                break
+    elif len(out.got_t) < len(got_i):
         viol("delivery/ini/success-without-delivery",
              "Initiator.exchange() reported success %d times but the target application received only %d payloads (%s)"
-             % (len(out.got_i), len(out.got_t), ctx))
+             % (len(got_i), len(out.got_t), ctx))
     elif len(out.got_i) < len(out.got_t) - 1:
         viol("delivery/tgt/success-without-delivery",
              "Target.exchange() returned the next request %d times but the initiator application received only %d responses (%s)"
              % (len(out.got_t) - 1, len(out.got_i), ctx))
     for side, e in (("ini", out.i_escape), ("tgt", out.t_escape)):
         if e is not None:
-            viol("escape/%s/%s" % (side, exc_sig(e)), "%s side raised %r instead of a CommunicationError (%s)" % (side, e, ctx))
+            sfx = "/empty-payload" if side == "ini" and out.i_escape_empty else ""
+            viol("%sescape/%s/%s%s" % (fam, side, exc_sig(e), sfx),
+                 "%s side raised %r instead of a CommunicationError (%s)" % (side, e, ctx))
+
+    # ---- the target side may return None only after release -----------------------------------------
+    released = any(fr.dir == "I>T" and fr.heard and fr.rx is not None and
+                   A.Parsed(fr.rx, fr.brty).kind in ("RLS_REQ", "DSL_REQ") and A.Parsed(fr.rx, fr.brty).ok
+                   for fr in out.log[out.base:out.t_fail_at])
+    if out.t_end == "none":
+        tn = out.t_none or {}
+        heard = [fr for fr in out.log[out.base:tn.get("frames")] if fr.dir == "I>T" and fr.heard and fr.fault != "l"]
+        if released:
+            if evidence:
+                R.count("end_tgt_none_after_release")
+        elif out.garbled and tn.get("last") == "frame" and heard and heard[-1].rx is not None and len(heard[-1].rx) == 0:
+            # a frame cut to 0 bytes (garbled family, C07) is what a driver's "link broke" (None) looks like to nfc.dep
+            if evidence:
+                R.count("end_tgt_none_after_empty_frame")
+        else:
+            if tn.get("expired"):
+                mech = "timeout-while-processing" if tn.get("last") == "send-only" else "timeout-while-waiting"
+            else:
+                mech = "other"
+            if tn.get("call") == "rtox":
+                mech += "@rtox"
+            if evidence:
+                R.count("end_tgt_none_without_release")
+                R.count("end_tgt_none_without_release_" + mech)
+            # in a run of the retry class the initiator may answer an RTOX with its next INF request: same root cause
+            viol("%sreport/tgt/none-without-release/%s" % (fam, mech),
+                 "Target.%s() returned None although no RLS_REQ/DSL_REQ had been received (%s) (%s)"
+                 % ("send_timeout_extension" if tn.get("call") == "rtox" else "exchange",
+                    "its deadline had expired: TimeoutError expected" if tn.get("expired") else "deadline not reached", ctx))
     if evidence:
         R.count("payloads_delivered", len(out.got_t) + len(out.got_i))
         R.count("end_ini_" + str(out.i_end))
         R.count("end_tgt_" + str(out.t_end))
+        R.count("end_op_" + str(cfg.get("end", "rls")))
+        if out.retried:
+            R.count("retry_runs")
+            R.count("retry_calls_after_failure", sum(1 for k in range(cfg["n"]) if out.i_fails and k > out.i_fails[0][0]
+                                                     and (k in out.i_ok_idx or any(f[0] == k for f in out.i_fails))))
+            R.count("retry_success_after_failure", sum(1 for k in out.i_ok_idx if k > out.i_fails[0][0]))
+        if out.i_refused_empty:
+            R.count("empty_payload_refused_by_ValueError", out.i_refused_empty)
+        if out.farewell is not None:
+            R.count("tdeact_runs")
+            if out.farewell in out.got_i:
+                R.count("tdeact_farewell_delivered")
+        for side, got, d in (("I", out.got_t, "I"), ("T", out.got_i, "T")):
+            m = spec_miu(cfg, d)
+            for g in got:
+                n_ = len(g)
+                if n_ <= 1:
+                    c = "1"
+                elif n_ in (m - 1, m, m + 1):
+                    c = {m - 1: "miu-1", m: "miu", m + 1: "miu+1"}[n_]
+                elif n_ < m:
+                    c = "small"
+                elif n_ % m in (0, 1, m - 1) :
+                    c = "n*miu%+d" % ((n_ + 1) % m - 1) if n_ < 2000 else "big"
+                else:
+                    c = "multi" if n_ < 2000 else "big"
+                R.count("size_%s_%s" % (side, c))
 
     # ---- wire monitor --------------------------------------------------------------------------
     lr = {"I": None, "T": None}          # LR announced by the initiator / by the target, as seen on the wire
@@ -397,6 +599,9 @@ def judge(cfg, out, R, case, evidence=True):
         if rcv_lr is None or p.tdlen is None:
             continue
         if evidence:
+            R.count("wire_lr_checked")
+            if fr.n >= out.base and p.kind in ("DEP_REQ", "DEP_RES"):
+                R.count("wire_lr_checked_dep_to%s" % ("T" if fr.dir == "I>T" else "I"))
             R.max("max_tdlen_%s_LR%d" % ("toT" if fr.dir == "I>T" else "toI", rcv_lr), p.tdlen)
         if p.tdlen > rcv_lr:
             s = "wire/len>LR/%s/%s" % (p.label, "did" if p.did is not None else "nodid")
@@ -424,6 +629,10 @@ def judge(cfg, out, R, case, evidence=True):
                     last_pni = p.pni
             elif p.kind in ("RLS_REQ", "RLS_RES"):
                 R.count("frames_RLS")
+            elif p.kind in ("DSL_REQ", "DSL_RES"):
+                R.count("frames_DSL")
+            if fr.late:
+                R.count("frames_late_unheard")
             if fr.fault != "d":
                 R.count("fault_%s_on_%s" % (fr.fault if isinstance(fr.fault, str) else fr.fault[0], p.label))
                 R.seen("fault_positions", fr.n - out.base)
@@ -437,7 +646,10 @@ def judge(cfg, out, R, case, evidence=True):
         R.max("max_frames_in_conversation", len(out.log) - out.base)
 
     # ---- recovery clause ----------------------------------------------------------------------
-    in_domain = cfg["tmo"] == "roomy" and not out.garbled and not stale
+    # think-time below RWT (below rtox x RWT after an extension) is inside the domain: a fault-free run must succeed
+    in_domain = cfg["tmo"] == "roomy" and not out.garbled and not stale and cfg.get("end", "rls") in ("rls", "dsl") \
+        and not cfg.get("rxlat") and all(0 <= float(x) < 1 for x in (cfg.get("think") or [])) \
+        and 0 <= float(cfg.get("think_rtox") or 0) < 1 and all(len(p_) > 0 for p_ in out.sent_i[:cfg["n"]])
     for fr in faults:
         role, step = roles[fr.n]
         if fr.fault not in ("l", "c"):
@@ -446,7 +658,7 @@ def judge(cfg, out, R, case, evidence=True):
             step["faults"] += 1
             if step["faults"] > 1:
                 in_domain = False
-        elif role == "other" and fr.p.kind in ("RLS_REQ", "RLS_RES"):
+        elif role == "other" and fr.p.kind in ("RLS_REQ", "RLS_RES", "DSL_REQ", "DSL_RES"):
             pass
         else:
             in_domain = False
@@ -455,6 +667,13 @@ def judge(cfg, out, R, case, evidence=True):
             R.count("recovery_clause_checked")
             if faults:
                 R.count("recovery_clause_checked_with_faults")
+            if any(float(x) > 0 for x in (cfg.get("think") or [])):
+                R.count("recovery_clause_checked_with_think_time")
+                R.seen("think_time_wt", cfg["wt"])
+            if cfg.get("think_rtox") and cfg.get("rtox"):
+                R.count("recovery_clause_checked_with_rtox_think_time")
+            if cfg.get("end") == "dsl":
+                R.count("recovery_clause_checked_end_dsl")
         bad = []
         if out.i_end != "ok":
             bad.append(("ini", out.i_end, out.i_fail_at, out.i_exc))
@@ -476,6 +695,10 @@ def judge(cfg, out, R, case, evidence=True):
                 culprit += "/" + diagnose(out, fr.n, at)
             else:
                 culprit = "no-fault"
+                if cfg.get("think_rtox") and cfg.get("rtox"):
+                    culprit += "@rtox-think-time"
+                elif any(float(x) > 0 for x in (cfg.get("think") or [])):
+                    culprit += "@think-time"
             viol("recovery/%s/%s-%s/%s" % (culprit, side, end, "did" if cfg["did"] is not None else "nodid"),
                  "single fault per step (%d faults, all on first transmissions, all recovery frames delivered) but the %s "
                  "side ended with %s%s after %d of %d exchanges (%s)"
@@ -514,7 +737,8 @@ def base_cfg(rng, i):
     cfg = {"start": start, "brs": brs, "did": did, "nad": nad, "lri": lri, "lrt": lrt,
            "wt": wt, "gbi": b"" if gb & 1 else b"Ffm\x01\x01\x11",
            "gbt": b"" if gb & 2 else b"Ffm\x01\x01\x11\x03\x02\x00\x13", "tmo": "roomy",
-           "pseed": rng.randrange(1 << 30), "frontend": i % 8 == 5 and not start.startswith("given")}
+           "pseed": rng.randrange(1 << 30), "frontend": i % 8 == 5 and not start.startswith("given"),
+           "honour": True, "end": "rls"}
     return cfg
 
 
@@ -546,8 +770,23 @@ def family_cfg(rng, i, fam):
         cfg.update(n=9, sizes_i=[min(s, mi) for s in sizes_around(rng, mi, 9)], sizes_t=[rng.choice([1, 9])] * 9)
     elif fam == "long-chain":
         cfg.update(n=2, sizes_i=[4 * mi + d, 1], sizes_t=[3 * mt + d, 1])
+    elif fam == "tdeact":
+        # the target application ends the conversation with Target.deactivate(data) (what LLCP does); delivery only
+        cfg.update(n=2, sizes_i=[rng.choice([1, mi, mi + 1]), rng.choice([2, mi + 2])], sizes_t=[rng.choice([1, mt + 1]), rng.choice([2, mt])],
+                   end="tdeact", tdeact=2)
+        cfg["wt"] = [0, 2, 4, 8][i % 4]
+    elif fam == "burst":
+        # retry-after-failure: outages of 3-6 consecutive frames make an exchange fail, the application goes on
+        cfg.update(n=4, sizes_i=[rng.choice([1, mi]), rng.choice([2, mi + 1]), 3, rng.choice([1, 2 * mi])],
+                   sizes_t=[rng.choice([1, mt]), rng.choice([2, mt + 1]), 3, 1], retry=2)
     else:
         raise ValueError(fam)
+    if fam not in ("tdeact",):
+        # termination by RLS_REQ or DSL_REQ; target think-time below RWT (below rtox x RWT after an extension)
+        cfg["end"] = ("rls", "dsl", "rls")[(i // 2) % 3]
+        cfg["think"] = ([0], [0.9], [0.5, 0.97], [0], [0.97])[(i // 3) % 5]
+        if fam == "rtox":
+            cfg["think_rtox"] = (0.9, 0, 0.97, 0.5)[(i // 5) % 4]
     cfg["fam"] = fam
     return cfg
 
@@ -578,7 +817,25 @@ def random_cfg(rng, i):
             cfg["rtox"][str(rng.randrange(n))] = 2
     if rng.random() < 0.2:
         cfg["tmo"] = rng.choice([0.5, 1.5, 2.5, 3.5])
-        cfg["tmo_t"] = rng.choice([1.5, 5, 40])
+        cfg["tmo_t"] = rng.choice([1.02, 1.5, 2.1, 5, 40])
+        # delivery verdicts only: host latency, think-time of any length
+        cfg["rxlat"] = rng.choice([0, 0, 0.02, 0.1, 0.3])
+        cfg["think"] = [rng.choice([0, 0, 0.5, 0.98, 1.3, 2.5]) for _ in range(2)]
+    elif rng.random() < 0.5:
+        cfg["think"] = [rng.choice([0, 0.3, 0.6, 0.9, 0.97]) for _ in range(3)]
+        if cfg.get("rtox"):
+            cfg["think_rtox"] = rng.choice([0, 0.5, 0.9, 0.97])
+    r = rng.random()
+    if r < 0.25:
+        cfg["end"] = "dsl"
+    elif r < 0.37:
+        # Target.deactivate(data) after m payloads; a third of these initiators go on talking to the deactivating target
+        m = rng.randrange(1, n + 1)
+        cfg.update(end="tdeact", tdeact=m)
+        if rng.random() < 0.67:
+            cfg.update(n=m, sizes_i=cfg["sizes_i"][:m])
+    if rng.random() < 0.3:
+        cfg["retry"] = rng.choice([1, 2, 3])
     return cfg
 
 
@@ -646,6 +903,31 @@ def exhaustive(cfg, k, lmax, R, cap=None):
     return True
 
 
+def bursts(cfg, R, lmax):
+    """retry-after-failure, enumerated: every outage of 3..6 consecutive frames (all lost / all corrupted / alternating)
+    starting at each of the first lmax frames of the conversation; the initiator application goes on after the failure"""
+    out = run_case(cfg, {}, R, "burst")
+    length = min(len(out.log) - out.base, lmax)
+    for a in range(length):
+        for w in (3, 4, 5, 6):
+            for kind in ("l", "c", "lc"):
+                run_case(cfg, {a + j: kind[j % len(kind)] for j in range(w)}, R, "burst")
+    R.count("burst_configs_completed")
+
+
+def probe_empty(cfg, R, rng):
+    """'any payload size': the empty payload at a random position.  Accepted: it is delivered (as b""), a
+    CommunicationError, or a clean refusal (ValueError before anything is sent, what Target.exchange() documents)"""
+    cfg = dict(cfg)
+    n = cfg["n"]
+    sizes = list(cfg["sizes_i"])
+    sizes[rng.randrange(n)] = 0
+    cfg.update(sizes_i=sizes, fam="empty", end="rls", retry=0)
+    cfg.pop("tdeact", None)
+    R.count("empty_payload_probes")
+    return run_case(cfg, {}, R, "empty")
+
+
 def random_script(rng, cfg):
     rate = rng.choice([0.05, 0.1, 0.2, 0.3, 0.4])
     r = rng.random()
@@ -666,14 +948,18 @@ def random_script(rng, cfg):
 
 QUICK_FAMS = ["small3", "ichain", "tchain", "both", "wrap5", "rtox"]
 THOROUGH_FAMS = QUICK_FAMS + ["wrap9", "long-chain"]
+LONG_FAMS = ["wrap9", "long-chain"]          # quick tier: exhaustive with one fault over the whole conversation
 
 
 def plan(tier, seed):
     n = 16
     if tier == "quick":
-        return [{"k": 2, "lmax": 12, "configs": 8, "fams": QUICK_FAMS, "rand": 1200, "timeout": 600} for _ in range(n)]
-    return [{"k": 3, "lmax": 24, "configs": 8, "fams": THOROUGH_FAMS, "rand": 12000, "cap": 20000, "timeout": 3000}
-            for _ in range(n)]
+        return [{"k": 2, "lmax": 12, "configs": 8, "fams": QUICK_FAMS, "rand": 1200, "timeout": 600,
+                 "long": {"k": 1, "lmax": 40, "configs": 1}, "tdeact": {"k": 2, "lmax": 10, "configs": 1},
+                 "burst": {"lmax": 8, "configs": 1}} for _ in range(n)]
+    return [{"k": 3, "lmax": 24, "configs": 8, "fams": THOROUGH_FAMS, "rand": 12000, "cap": 20000, "timeout": 3000,
+             "long": {"k": 2, "lmax": 40, "configs": 1}, "tdeact": {"k": 3, "lmax": 14, "configs": 2},
+             "burst": {"lmax": 24, "configs": 4}} for _ in range(n)]
 
 
 def run(desc, R, rng):
@@ -690,6 +976,24 @@ def run(desc, R, rng):
             R.count("exhaustive_fam_" + fam)
             if j < 1:
                 R.sample({"exhaustive_config": cfg})
+        seedoff = 3 * int(desc.get("seed", 0))
+        extra = desc.get("long")
+        for j in range(extra["configs"] if extra else 0):
+            i = shard + 16 * j + seedoff
+            fam = LONG_FAMS[(shard + j) % len(LONG_FAMS)]
+            ok = exhaustive(family_cfg(rng, i, fam), extra["k"], extra["lmax"], R, desc.get("cap"))
+            all_done = all_done and ok
+            R.count("exhaustive_fam_" + fam)
+        extra = desc.get("tdeact")
+        for j in range(extra["configs"] if extra else 0):
+            ok = exhaustive(family_cfg(rng, shard + 16 * j + seedoff, "tdeact"), extra["k"], extra["lmax"], R, desc.get("cap"))
+            all_done = all_done and ok
+            R.count("exhaustive_fam_tdeact")
+        extra = desc.get("burst")
+        for j in range(extra["configs"] if extra else 0):
+            bursts(family_cfg(rng, shard + 16 * j + seedoff, "burst"), R, extra["lmax"])
+        if extra:
+            probe_empty(family_cfg(rng, shard + seedoff, "small3"), R, rng)
         for i in range(desc["rand"]):
             cfg = random_cfg(rng, i)
             out = run_case(cfg, random_script(rng, cfg), R, "random")
@@ -720,7 +1024,7 @@ def replay(case, R):
 # witness printer:  PYTHONPATH=/repo/src:/verif /venv/bin/python -m vf.props.c04 did=1 sizes_t=[61] 'script={"1":"c"}'
 # ------------------------------------------------------------------------------------------------
 BASE_CFG = dict(start="active", brs=0, did=None, nad=None, lri=0, lrt=0, wt=4, gbi=b"", gbt=b"", tmo="roomy", pseed=1,
-                n=1, sizes_i=[1], sizes_t=[1])
+                n=1, sizes_i=[1], sizes_t=[1], honour=True, end="rls")
 
 
 def _cli(argv):
@@ -735,16 +1039,22 @@ def _cli(argv):
             script = script_dict([(p, f) for p, f in json.loads(v).items()])
         else:
             cfg[k] = json.loads(v)
-    cfg["n"] = len(cfg["sizes_i"])
+    if "n" not in [a.split("=", 1)[0] for a in argv]:
+        cfg["n"] = len(cfg["sizes_i"])
     out = converse(cfg, script)
     R = Recorder(ID)
     sigs = judge(cfg, out, R, {"cfg": cfg, "script": applied_script(out)})
     for f in out.log:
         rel = f.n - out.base
-        print("%4s %s %s %-9s LEN-1=%-4s %s %s" % (rel if rel >= 0 else "act", f.dir, f.brty, f.p.label, f.p.tdlen, f.data[:10].hex(),
-                                                  {"d": "", "l": "<- LOST", "c": "<- CORRUPTED"}.get(f.fault, "<- %r" % (f.fault,))))
+        print("%4s t=%9.3fms %s %s %-9s LEN-1=%-4s %s %s%s" % (
+            rel if rel >= 0 else "act", (f.t - out.log[0].t) * 1e3, f.dir, f.brty, f.p.label, f.p.tdlen, f.data[:10].hex(),
+            {"d": "", "l": "<- LOST", "c": "<- CORRUPTED"}.get(f.fault, "<- %r" % (f.fault,)),
+            " (late: after the receiver's deadline)" if f.late else ("" if f.heard or f.fault == "l" else " (nobody listening)")))
     print("initiator: %s %s   delivered to it %d/%d" % (out.i_end, out.i_exc or out.i_escape or "", len(out.got_i), cfg["n"]))
-    print("target:    %s %s   delivered to it %d/%d" % (out.t_end, repr(out.t_exc or out.t_escape or ""), len(out.got_t), cfg["n"]))
+    print("target:    %s %s   delivered to it %d/%d   %s" % (out.t_end, repr(out.t_exc or out.t_escape or ""), len(out.got_t), cfg["n"],
+                                                           out.t_none or ""))
+    if out.i_fails:
+        print("initiator calls: ok %s failed %s" % (out.i_ok_idx, [(k, e) for k, e, _ in out.i_fails]))
     print("signatures:", sorted(set(sigs)))
 
 
